@@ -33,7 +33,8 @@ func prgScript(g random.Rand, seed uint64, steps int) []byte {
 			g.Read(b)
 			out.Write(b)
 		case 1:
-			n := []uint64{1, 2, 3, 255, 256, 257, 1 << 16, 1<<32 + 5, 1<<63 + 3, ^uint64(0)}[r.IntN(10)]
+			ns := []uint64{1, 2, 3, 255, 256, 257, 1 << 16, 1<<32 + 5, 1<<63 + 3, ^uint64(0), 200, 120, 100, 65, 129, 50000, 30000, 1000, 600, 1 << 40, 1<<39 + 1}
+			n := ns[r.IntN(len(ns))]
 			fmt.Fprintf(&out, "u%d;", g.UintN(n))
 		case 2:
 			p, err := g.Permutation(r.IntN(12))
@@ -166,7 +167,7 @@ func C14(run *mon.Run) {
 			seed := mon.RandBytes(r, 32)
 			cust := mon.RandBytes(r, off%13)
 			// reach the offset by several different read sequences
-			for variant := 0; variant < 3; variant++ {
+			for variant := 0; variant < 5; variant++ {
 				rep := map[string]any{"seed": mon.Hex(seed), "customizer": mon.Hex(cust), "offset": off, "variant": variant}
 				g, err := random.NewChacha20PRG(seed, cust)
 				if err != nil {
@@ -188,7 +189,16 @@ func C14(run *mon.Run) {
 						g.Read(make([]byte, n))
 						left -= n
 					}
+					off := off
+					if variant >= 3 {
+						// the original generator has a history of derived draws (bounds of all sizes) before the
+						// state is stored: nothing but the stored state may influence what follows
+						_ = prgScript(g, uint64(off*7+variant), 6+variant*5)
+					}
 					st := g.Store()
+					if variant >= 3 && len(st) == 52 {
+						off = int(binary.LittleEndian.Uint64(st[44:]))
+					}
 					stArg := withSpare(st)
 					g2, err := random.RestoreChacha20PRG(stArg)
 					run.Eval(1)
